@@ -281,8 +281,11 @@ func (db *MultiBucketBackend) DeleteBucket(name string) (rerr error) {
 		return gofakes3.ResourceError(gofakes3.ErrBucketNotEmpty, name)
 	}
 
+	// The bucket is empty, so Remove is enough. RemoveAll must not be used with
+	// a bucket name: afero's MemMapFs removes every path that starts with the
+	// string it is given, which includes other buckets ("data-archive" for "data").
 	// FIXME(bw): the error handling logic here is a little janky:
-	if err := db.bucketFs.RemoveAll(name); os.IsNotExist(err) {
+	if err := db.bucketFs.Remove(name); os.IsNotExist(err) {
 		rerr = gofakes3.BucketNotFound(name)
 	} else if err != nil {
 		return err
@@ -315,8 +318,8 @@ func (db *MultiBucketBackend) ForceDeleteBucket(name string) error {
 		}
 	}
 
-	// Delete the bucket itself
-	if err := db.bucketFs.RemoveAll(name); err != nil {
+	// Delete the bucket itself (now empty; see DeleteBucket for why this is not RemoveAll)
+	if err := db.bucketFs.Remove(name); err != nil {
 		return err
 	}
 
